@@ -28,20 +28,35 @@ UNITS = {'pt': Fraction(65536), 'cm': Fraction(7227, 254) * 65536, 'mm': Fractio
 # expr: ['term', t] | ['and', e, t, spelling] | ['or', e, t, spelling]
 # op:   ['lit', z] | ['mac', z] | ['cnt', z] | ['var']        (var = the loop counter)
 
-def print_tree(e, sp):
+def _letters(n):
+    s = ''
+    while True:
+        s = 'abcdefghijklmnopqrstuvwxyz'[n % 26] + s
+        n = n // 26 - 1
+        if n < 0:
+            return 'q' + s
+
+
+def print_tree(e, sp, names=None):
     """-> (latex, preamble list).  sp: iterator of blank strings"""
     pre = []
-    names = itertools.count()
+    names = itertools.count() if names is None else names
 
     def op(o):
+        if len(o) > 2 and o[2]:
+            # a run of signs in front of the operand; the operand value stored in the tree is the value AFTER the signs
+            # were applied, the printed magnitude is that value with the signs taken off again
+            signs = o[2]
+            inner = o[1] * (-1 if signs.count('-') % 2 else 1)
+            return signs + op([o[0], inner])
         if o[0] == 'lit':
             return str(o[1])
         if o[0] == 'mac':
-            n = 'num' + 'abcdefghijklmnopqrstuvwxyz'[next(names) % 26] + 'abcdefghijklmnopqrstuvwxyz'[next(names) % 26]
+            n = 'num' + _letters(next(names))
             pre.append('\\newcommand{\\%s}{%d}' % (n, o[1]))
             return '\\%s ' % n
         if o[0] == 'cnt':
-            n = 'cnt' + 'abcdefghijklmnopqrstuvwxyz'[next(names) % 26] + 'abcdefghijklmnopqrstuvwxyz'[next(names) % 26]
+            n = 'cnt' + _letters(next(names))
             pre.append('\\newcounter{%s}\\setcounter{%s}{%d}' % (n, n, o[1]))
             return '\\value{%s}' % n
         if o[0] == 'var':
@@ -125,11 +140,12 @@ def rand_op(rng, var=False):
     z = rng.choice([0, 1, 2, 3, 5, 7, 10, 12, 99, 100, -1, -4, rng.randint(-1000, 1000)])
     if var and r < 0.5:
         return ['var']
+    signs = rng.choice(['', '', '', '', '-', '--', '+', '+-', '-+-', '- -']) if rng.random() < 0.5 else ''
     if r < 0.6:
-        return ['lit', z]
+        return ['lit', z, signs]
     if r < 0.8:
-        return ['mac', z]
-    return ['cnt', z]
+        return ['mac', z, signs]
+    return ['cnt', z, signs]
 
 
 def rand_atom(rng, depth, var=False):
@@ -275,7 +291,10 @@ def streams(rng, tier, boost):
         else:
             # (e \or \not e) \and guard  -- always terminates, exercises the loop variable in sub-tests
             tree = ['and', ['or', e, ['not', ['atom', ['paren', e]], 'not'], 'or'], ['atom', guard], 'and']
-        out.append(('whiledo', dict(kind='loop', c0=c0, step=step, tree=tree, blanks=rng.randint(1, 10 ** 6))))
+        inner = rand_expr(rng, 1, var=True) if rng.random() < 0.6 else None
+        if rng.random() < 0.5:   # redundant parentheses around the whole test
+            tree = ['term', ['atom', ['paren', tree]]]
+        out.append(('whiledo', dict(kind='loop', c0=c0, step=step, tree=tree, inner=inner, blanks=rng.randint(1, 10 ** 6))))
     for i in range((150 if tier == 'quick' else 1500) * boost):
         out.append(('malformed', dict(kind='raw', toks=rand_raw(rng))))
     return out
@@ -294,11 +313,17 @@ def source(case):
     if case['kind'] == 'raw':
         return PREAMBLE + '\\ifthenelse{' + print_raw(case['toks']) + '}{T}{F}'
     sp = spaces(random.Random(case['blanks'])) if case['blanks'] else itertools.repeat('')
-    body, pre = print_tree(case['tree'], sp)
+    names = itertools.count()
+    body, pre = print_tree(case['tree'], sp, names)
     if case['kind'] == 'expr':
         return PREAMBLE + ''.join(pre) + '\\ifthenelse{' + body + '}{T}{F}'
+    inner = ''
+    if case.get('inner') is not None:
+        ibody, ipre = print_tree(case['inner'], sp, names)
+        pre = pre + ipre
+        inner = '\\ifthenelse{' + ibody + '}{Y}{N}'
     return (PREAMBLE + ''.join(pre) + '\\newcounter{loopc}\\setcounter{loopc}{%d}' % case['c0'] +
-            '\\whiledo{' + body + '}{X\\addtocounter{loopc}{%d}}' % case['step'] + 'E\\arabic{loopc}')
+            '\\whiledo{' + body + '}{X' + inner + '\\addtocounter{loopc}{%d}}' % case['step'] + 'E\\arabic{loopc}')
 
 
 def describe(case):
@@ -310,6 +335,8 @@ def model_input(case):
         return [0, wire_tree(case['tree'])]
     if case['kind'] == 'raw':
         return [1, wire_raw(case['toks'])]
+    if case.get('inner') is not None:
+        return [3, case['c0'], case['step'], wire_tree(case['tree']), wire_tree(case['inner'])]
     return [2, case['c0'], case['step'], wire_tree(case['tree'])]
 
 
@@ -327,9 +354,11 @@ def run_impl(case):
     txt = texrun.text_nospace(doc)
     if case['kind'] == 'loop':
         import re
-        m = re.fullmatch(r'(X*)E(-?\d+)', txt)
+        m = re.fullmatch(r'((?:X[YN]?)*)E(-?\d+)', txt)
         if m:
-            return [0, len(m.group(1)), int(m.group(2))]
+            if case.get('inner') is not None:
+                return [0, m.group(1).count('X'), int(m.group(2)), [1 if ch == 'Y' else 0 for ch in m.group(1) if ch in 'YN']]
+            return [0, m.group(1).count('X'), int(m.group(2))]
         return ['text', txt]
     if txt in ('T', 'F'):
         return [0, 1 if txt == 'T' else 0]
@@ -340,7 +369,7 @@ def nontrivial(case, io):
     if case['kind'] == 'raw':
         return len(case['toks']) >= 2
     if case['kind'] == 'loop':
-        return isinstance(io, list) and len(io) == 3 and io[0] == 0 and io[1] >= 1
+        return isinstance(io, list) and len(io) >= 3 and io[0] == 0 and io[1] >= 1
     return ops_count(case['tree']) >= 1
 
 
@@ -350,7 +379,7 @@ def tags(case, io):
         t.append('impl-raises')
     if case['kind'] == 'expr':
         t.append('ops=%d' % min(ops_count(case['tree']), 8))
-    if case['kind'] == 'loop' and isinstance(io, list) and len(io) == 3:
+    if case['kind'] == 'loop' and isinstance(io, list) and len(io) >= 3 and io[0] == 0:
         t.append('iterations=%d' % io[1])
     return t
 
@@ -406,6 +435,10 @@ def shrink(case):
     if case['kind'] == 'loop':
         # keep the terminating guard (last conjunct); shrink only the rest
         t = case['tree']
+        if case.get('inner') is not None:
+            yield dict(case, inner=None)
+            for s2 in subs(case['inner']):
+                yield dict(case, inner=s2)
         if t[0] == 'and':
             yield dict(case, tree=['term', t[2]])
             for s in subs(t[1]):
